@@ -19,7 +19,7 @@
 (* with predicted result) as JSON; harness/cmd/groupprog replays them on every public curve      *)
 (* type and GroupProgTrace re-decides each replayed step from the definitions below.            *)
 (* Second family: pairing programmes  e([a]G1, [b]G2) = e(G1, G2)^(a b).                        *)
-EXTENDS Integers, Sequences, FiniteSets, TLC, Json
+EXTENDS Integers, Sequences, SequencesExt, FiniteSets, TLC, Json
 
 CONSTANTS K,          \* the "generic" initial value
           W,          \* window bound on |value|
@@ -42,10 +42,8 @@ Scalars == {"z0", "one", "two", "three", "m1", "m2", "ordw", "om1w", "op2w", "kk
 
 (* ------------------------------ operations on logs ------------------------------ *)
 Abs(v) == IF v < 0 THEN -v ELSE v
-RECURSIVE MsmVal(_, _)
-\* terms: sequence of <<scalar constant, register index>>
-MsmVal(regs, terms) == IF Len(terms) = 0 THEN 0
-                       ELSE ScalarVal(terms[1][1]) * regs[terms[1][2]].v + MsmVal(regs, Tail(terms))
+\* terms: sequence of <<scalar constant, register index>>  (a fold, not a recursion: the long family has thousands of terms)
+MsmVal(regs, terms) == FoldLeft(LAMBDA acc, t : acc + ScalarVal(t[1]) * regs[t[2]].v, 0, terms)
 \* value of an operation on the register file (all of them are what the mathematical group does to logarithms)
 OpValue(regs, op, args) ==
   CASE op = "add" -> regs[args[1]].v + regs[args[2]].v
@@ -157,11 +155,27 @@ StepT(op, args) ==
 NextP == \/ \E oa \in (IF step = 0 THEN PairMenu ELSE LaterPairMenu) : StepP(oa[1], oa[2])
          \/ \E oa \in GtMenu : StepT(oa[1], oa[2])
 
-Init == IF Family = "group" THEN InitG ELSE InitP
-Next == IF Family = "group" THEN NextG ELSE NextP
+(* ------------------------------ long multi-scalar multiplications ------------------------------ *)
+\* The windowed (bucket) multi-scalar multiplication picks its window width from the NUMBER of terms, so every width is its own code
+\* path: lengths 2^k - 1, 2^k, 2^k + 1 for k = 4..12.  Terms cycle through fourteen scalar constants (full-width ones included:
+\* order - 1, order - 2, the wide reductions) and the three registers; the registers sum to zero, so every full period of 42 terms
+\* cancels and the value stays inside the window - integer equality remains group equality.
+LongNs == UNION {{2^k - 1, 2^k, 2^k + 1} : k \in 4..12}
+LongNsGeneric == {n \in LongNs : n <= 129}            \* algebrautils.MultiScalarMul is a plain sum of scalar multiplications
+SCyc == <<"m1", "one", "m2", "two", "om1w", "one", "kk", "m1", "three", "m2", "z0", "ordw", "op2w", "m2">>
+LongTerms(n) == [i \in 1..n |-> <<SCyc[((i - 1) % Len(SCyc)) + 1], ((i - 1) % 3) + 1>>]
+InitL == /\ Family = "long"
+         /\ regs \in {<<Fresh(a), Fresh(b), Fresh(0 - a - b)>> : a \in {1, K}, b \in {-1, 2, K}}
+         /\ step = 0 /\ g1 = <<>> /\ g2 = <<>> /\ gt = <<>>
+NextL == /\ step = 0
+         /\ \/ \E n \in LongNs : StepG("msm", LongTerms(n))
+            \/ \E n \in LongNsGeneric : StepG("msmu", LongTerms(n))
+
+Init == CASE Family = "group" -> InitG [] Family = "long" -> InitL [] OTHER -> InitP
+Next == CASE Family = "group" -> NextG [] Family = "long" -> NextL [] OTHER -> NextP
 
 (* ------------------------------ what TLC checks on the model itself ------------------------------ *)
-InWindow == IF Family = "group" THEN \A i \in 1..3 : Abs(regs[i].v) <= W ELSE \A i \in 1..2 : Abs(gt[i]) <= W
+InWindow == IF Family \in {"group", "long"} THEN \A i \in 1..3 : Abs(regs[i].v) <= W ELSE \A i \in 1..2 : Abs(gt[i]) <= W
 \* laws the definitions must satisfy (evaluated on every reachable register file)
 Laws == Family = "group" =>
           \A a \in R3, b \in R3 :
@@ -170,4 +184,6 @@ Laws == Family = "group" =>
              /\ OpValue(regs, "smul", <<a, "om1w">>) = OpValue(regs, "neg", <<a>>)
              /\ OpValue(regs, "smul", <<a, "ordw">>) = 0
              /\ OpPred(regs, "eq", <<a, b>>) <=> OpValue(regs, "sub", <<a, b>>) = 0
+\* the design fact the long family rests on: a full period of 42 terms over registers that sum to zero contributes nothing
+LongLaw == Family = "long" /\ step = 0 => MsmVal(regs, LongTerms(42)) = 0 /\ MsmVal(regs, LongTerms(84)) = 0
 =============================================================================
